@@ -188,8 +188,49 @@ u_table(uint64_t idx, void *arg)
     uint32_t lo = d.area[0].base, hi = d.area[d.nareas - 1].base + d.area[d.nareas - 1].size;
     uint32_t span = hi - lo;
     uint32_t a0 = lo >= 2 ? lo - 2 : 0;
+    /* a second table at the same addresses (three one-word registers), read and iterated in between: a look-up
+     * remembered from one table must not be applied to the other */
+    static struct rt_inst inst2;
+    int by_alive = 0;
+    unsigned by_n = 0;
+    if (idx & 1) {
+        struct rt_desc d2;
+        memset(&d2, 0, sizeof d2);
+        d2.nareas = 1;
+        d2.bigendian = !d.bigendian;
+        d2.area[0].base = lo;
+        d2.area[0].size = 3;
+        d2.area[0].readable = d2.area[0].writeable = 1;
+        d2.area[0].has_write = 1;
+        d2.nregs = 3;
+        for (int i = 0; i < 3; i++) {
+            d2.reg[i].type = REG_TYPE_UINT16;
+            d2.reg[i].addr = lo + (uint32_t)i;
+            d2.reg[i].def.u16 = (uint16_t)(0x1100 * (i + 1));
+        }
+        rt_build_mode = 0;
+        rt_build(&inst2, &d2);
+        rt_build_mode = -1;
+        rt_cur = &inst;
+        by_alive = register_init(&inst2.t).code == REG_INIT_SUCCESS;
+    }
     for (uint32_t addr = a0; addr <= hi + 2; addr++)
         for (uint32_t n = 0; n <= span + 3 && n < 64; n++) {
+            if (by_alive && (by_n++ % 9) == 4) {
+                RegisterAtom w[3] = { 0, 0, 0 };
+                RegisterAccess ra = register_block_read(&inst2.t, lo + 1, 2, w);
+                it.nseen = 0;
+                it.stop_at = -1;
+                RegisterAccess ia = register_foreach_in(&inst2.t, lo + 1, 2, it_cb, &it);
+                unsigned char e1[2], e2[2];
+                rt_encode(REG_TYPE_UINT16, inst2.d.bigendian, 0x2200, e1);
+                rt_encode(REG_TYPE_UINT16, inst2.d.bigendian, 0x3300, e2);
+                if (ra.code != REG_ACCESS_SUCCESS || memcmp(&w[0], e1, 2) != 0 || memcmp(&w[1], e2, 2) != 0 || ia.code != REG_ACCESS_SUCCESS
+                    || it.nseen != 2 || it.seen[0] != 1 || it.seen[1] != 2)
+                    vh_fail("second-table", "part=bystander", "table{%.100s}: a second table at the same addresses: block read code=%d words "
+                            "%04x %04x, iteration code=%d saw %d registers", rt_describe(&d), ra.code, w[0], w[1], ia.code, it.nseen);
+                VH_COUNT("second table read and iterated in between");
+            }
             VH_CASE4(idx, addr, n, 0);
             vh_case_tag("read");
             one_read(addr, n);
